@@ -164,6 +164,8 @@ type polSpec struct {
 	Rebind    bool     `json:"dns_rebind_protection"`
 	Allow     []string `json:"allow"`
 	Deny      []string `json:"deny"`
+	// Form: how the rule entries are written in the Hookaidofile ("" = one quoted directive per entry; see dslRules)
+	Form string `json:"form,omitempty"`
 
 	allowClass, denyClass string
 }
